@@ -1,4 +1,4 @@
-import Confuse.Lemmas.Compose
+import Confuse.Lemmas.Total
 /-!
 # C01 — parsed configuration equals the reference meaning of the text
 
@@ -215,6 +215,46 @@ theorem C01_compositional_top (orc : Oracle) (items : List Item) (m r : PM)
     parseToks orc m (flats items) = liftM r [] := by
   have := C01_compositional orc items m r [] hev (fun _ => ⟨f, [], hfr⟩)
   rwa [liftM_nil_running m hrun] at this
+
+end Confuse
+
+namespace Confuse
+
+/-- **C01 (refinement, unconditional).** From an item boundary (a running machine whose stack is one
+frame in state 0 — the start of a parse, or of any section body), for EVERY item list: the
+compositional evaluation is defined (no guard fails: the brace structure of the grammar is the
+brace accounting of the machine, also through skipped undeclared sections), the token machine on top
+of any stack `rest` computes exactly its result, and the result is again at an item boundary — i.e.
+a text made of well-formed items is either rejected inside an item or leaves the parser between
+items, never in the middle of one. -/
+theorem C01_refinement (orc : Oracle) (items : List Item) (m : PM) (f : Frame) (rest : List Frame)
+    (hrun : m.status = .running) (hfr : m.frames = [f]) (hs : f.state = .s0) :
+    ∃ r, evalItems orc m items = some r ∧
+      parseToks orc (liftM m rest) (flats items) = liftM r rest ∧
+      (r.status ≠ .running ∨ (r.status = .running ∧ ∃ f', r.frames = [f'] ∧ f'.state = .s0)) := by
+  have hb : Bnd m := Or.inr ⟨hrun, f, hfr, hs⟩
+  obtain ⟨r, hev, hbr⟩ := evalItems_total orc items m hb
+  exact ⟨r, hev, (evalItems_sound orc items m r rest hev hb.live).1, hbr⟩
+
+/-- **C01 (acceptance).** A whole text of well-formed items followed by end of input: the machine
+reaches end of input in the result of the compositional evaluation, which — if no item was rejected —
+is an item boundary, where end of input is legal at nesting level 0.  (`liftM r []` is `r` itself
+when `r` is running; for a stopped `r` it is `r` with its frames unwound, which a later token never
+looks at.) -/
+theorem C01_items_then_eof (orc : Oracle) (items : List Item) (m : PM) (f : Frame) (n : Nat)
+    (hrun : m.status = .running) (hfr : m.frames = [f]) (hs : f.state = .s0) :
+    ∃ r, evalItems orc m items = some r ∧
+      parseToks orc m (flats items ++ [(.eof, n)]) = pstep orc (liftM r []) .eof n ∧
+      (r.status = .running → liftM r [] = r ∧ ∃ f', r.frames = [f'] ∧ f'.state = .s0) := by
+  obtain ⟨r, hev, hrun', hb⟩ := C01_refinement orc items m f [] hrun hfr hs
+  refine ⟨r, hev, ?_, ?_⟩
+  · rw [liftM_nil_running m hrun] at hrun'
+    rw [parseToks_append', hrun']
+    rfl
+  · intro hr
+    rcases hb with hst | ⟨_, h⟩
+    · exact absurd hr hst
+    · exact ⟨liftM_nil_running r hr, h⟩
 
 end Confuse
 
